@@ -131,6 +131,7 @@ func init() {
 			"auth:1:kA:2000:G2", // a conflict that is not signed by the GCA must not ban
 			"rep:1:kA:now:500", "rep:2:kB:now-2000:500", "rep:1:kB:now:500", "rep:1:kF:now-2000:500",
 			"rot", "restart",
+			"touch", // the equipment list, sync replies and server list are requested (and compared); between two touches anything remembered can go stale
 		}
 		depth := 4
 		if tier == "thorough" {
